@@ -275,6 +275,15 @@ fn main() {
         if !same { println!("FAIL: from_file does not behave like from() on the file's lines"); std::process::exit(1) }
         println!("ok: same behaviour"); std::process::exit(0)
     }
+    if args.first().map(|a| a == "threshold-panic").unwrap_or(false) {
+        // `threshold-panic rep|len MESSAGE`: the setter called with 0 must panic with exactly MESSAGE (the documented message)
+        let which = args.get(1).cloned().unwrap_or_default(); let want = args.get(2).cloned().unwrap_or_default();
+        let r = std::panic::catch_unwind(move || { let mut b = RegExpBuilder::from(&["a"]); if which == "rep" { b.with_minimum_repetitions(0); } else { b.with_minimum_substring_length(0); } });
+        let got = match &r { Ok(_) => "<no panic>".to_string(), Err(e) => e.downcast_ref::<String>().cloned().or_else(|| e.downcast_ref::<&str>().map(|x| x.to_string())).unwrap_or_default() };
+        println!("panic message: {got:?}\ndocumented:    {want:?}");
+        if got != want { println!("FAIL: not the documented message"); std::process::exit(1) }
+        println!("ok"); std::process::exit(0)
+    }
     if args.first().map(|a| a == "py-escapes").unwrap_or(false) { py_escapes(args.get(1).map(|x| x.as_str()).unwrap_or("")) }
     if args.first().map(|a| a == "hunt-prop").unwrap_or(false) { hunt_prop(args.get(1).map(|x| x.as_str()).unwrap_or("")) }
     if args.first().map(|a| a == "hunt-sound").unwrap_or(false) { hunt_sound() }
